@@ -123,7 +123,7 @@ func RunB(sc *Scenario, site *Site, o BOpts) *Result {
 	env = append(env, o.ExtraEnv...)
 	timeout := o.Timeout
 	if timeout == 0 {
-		timeout = 60 * time.Second
+		timeout = 120 * time.Second
 	}
 	ctx, cancel := context.WithTimeout(context.Background(), timeout)
 	defer cancel()
